@@ -1,9 +1,11 @@
 //! dsched: deterministic exhaustive scheduler / enumerator for the deltio properties.
 mod engine;
 mod explore;
+mod model;
 mod props;
 mod report;
 mod scen;
+mod seq;
 mod world;
 
 fn usage() -> ! {
